@@ -23,6 +23,7 @@ OutAP(o) == IF o.t = "ok" THEN [t |-> "ap", ip |-> o.ip, port |-> o.port] ELSE [
 CheckParse(e) ==
   LET P == IF Has(e, "via") THEN "C14" ELSE "C15" IN
   /\ Judge("C04", "NoPanic", e.out.t # "panic", e.out, "no panic")
+  /\ (IF Has(e, "again") THEN Judge(P, "SameAnswerAgain", e.again = e.out, e.again, e.out) ELSE TRUE)
   /\ (IF MustAccept(e.role, e.s) THEN Judge(P, "AcceptExact", OutAP(e.out) = Denotes(e.role, e.s), e.out, Denotes(e.role, e.s))
       ELSE IF MustReject(e.role, e.s) THEN Judge(P, "Reject", e.out.t = "err", e.out, "err")
       ELSE IF DecimalReading(e.s).t = "ap" /\ e.out.t = "ok"
